@@ -331,6 +331,32 @@ func checkCoercionErrors(r *Run, prog *Program, a *Anchors, pfx string) {
 						"the equality matcher returns an error on a path where the literal was coerced and a comparator exists: a valid literal that denotes a different value must compare false, not fail [path "+strings.Join(sm.St.trail, " ")+"]")
 				}
 			}
+			// the == matcher asks both tables for the kind of the very value it was given: a value replaced by something
+			// computed from it (its text, its length) is compared in another type than its own
+			if m.Name() == "doMatchEqual" || strings.HasSuffix(m.Name(), "Equal") {
+				var vp *ssa.Parameter
+				for _, q := range m.Params {
+					if namedIs(q.Type(), "reflect", "Value") {
+						vp = q
+					}
+				}
+				if vp != nil {
+					want := (&Sym{K: sKind, A: paramSym(vp)}).Key()
+					for _, ev := range sm.Events() {
+						if ev.Instr == nil || (ev.Callee != a.EqTable && ev.Callee != a.CoerceTab) || ev.Callee == nil {
+							continue
+						}
+						okK := false
+						for _, x := range ev.Args {
+							if x.K == sKind || (x.T != nil && namedIs(x.T, "reflect", "Kind")) {
+								okK = x.Key() == want
+							}
+						}
+						r.Check(pfx+".equality-error-sources", m.Name()+":kind-asked:"+ev.Callee.Name(), prog.pos(ev.Instr.Pos()), okK,
+							"the equality matcher consults "+ev.Callee.Name()+" for a kind other than that of the value it was given: the comparison would not be made in the value's own type [path "+strings.Join(sm.St.trail, " ")+"]")
+					}
+				}
+			}
 			// equality against a value with no comparator
 			for _, ev := range sm.Events() {
 				if ev.Instr == nil || ev.Callee != a.EqTable || ev.Res == nil {
@@ -475,6 +501,14 @@ func checkJSONNumber(r *Run, prog *Program, a *Anchors, pfx string) {
 		if matcher != nil {
 			// transparency: matcher gets Indirect(ValueOf(val))
 			ok := indirect != nil && valueOf != nil && matcherValueKey(sm.St, matcher) == indirect.Res.Key() && indirect.Args[0].Key() == valueOf.Res.Key()
+			if !ok && valueOf != nil {
+				// reflect.Indirect spelled out: Elem() of a pointer, the value itself otherwise
+				if _, mv := matcherCallOperands(sm.St, matcher); mv != nil {
+					if inner, isInd := indirectOf(sm.St, mv); isInd && inner.Key() == valueOf.Res.Key() {
+						ok = true
+					}
+				}
+			}
 			r.Check(pfx+".value-handed-over", "Indirect(ValueOf(val))", prog.pos(matcher.Instr.Pos()), ok, "the matcher must be given reflect.Indirect(reflect.ValueOf(value)) so that pointers and interfaces are transparent and named types are compared by kind")
 			if i64 == nil && valueOf != nil {
 				// not a json.Number: what is compared is the looked-up value itself, not something computed from it
